@@ -39,6 +39,7 @@ func init() {
 	tk := string(ticket.TicketPrefix) + "t1"
 	wlists = [][]string{
 		{"a", "1"},
+		{"a", ""}, // an empty value over a non-empty one (with MVCC the stored leaf carries no value to compare with)
 		{"b", "1"},
 		{"a", "2", "c", "1"},
 		{"c", "1", "b", "2", "a", "1"},
@@ -169,12 +170,12 @@ func (h harness) opName(i int) string {
 		i -= n
 		return fmt.Sprintf("MemSet(%s,%s)", pn[i/h.nW], wname(i%h.nW))
 	}
-	return []string{"Commit(oldest-pending)", "Commit(newest-pending)", "Rollback(oldest-pending)", "Rollback(newest-pending)"}[i-2*n]
+	return []string{"Commit(oldest-pending)", "Commit(newest-pending)", "Rollback(oldest-pending)", "Rollback(newest-pending)", "Restart"}[i-2*n]
 }
 
 func (h harness) seq(r *vx.Run) *vx.Seq[*sys] {
 	n := h.nParents * h.nW
-	q := &vx.Seq[*sys]{Run: r, Name: h.cfg.Name, NumOps: 2*n + 4, MaxDepth: h.depth, Workers: 1}
+	q := &vx.Seq[*sys]{Run: r, Name: h.cfg.Name, NumOps: 2*n + 5, MaxDepth: h.depth, Workers: 1}
 	q.New = func() *sys {
 		mvx.ResetGlobals(h.cfg)
 		return &sys{cfg: h.cfg, st: mvx.Open(h.cfg, "memdb", "")}
@@ -249,6 +250,17 @@ func (h harness) seq(r *vx.Run) *vx.Seq[*sys] {
 				s.pending = append(s.pending, v)
 			}
 			s.markAlias()
+			return ""
+		}
+		if i == 2*n+4 {
+			// the process ends and a new one opens the same database: caches are empty, pending updates are gone
+			if len(s.committed) == 0 {
+				return ""
+			}
+			s.st = mvx.RestartMem(s.st, s.cfg)
+			s.pending = nil
+			s.markAlias()
+			r.Seen("outcomes", "restart:"+s.situation())
 			return ""
 		}
 		if len(s.pending) == 0 {
@@ -370,11 +382,11 @@ func main() {
 		memG := c.MemTree
 		if r.Quick() {
 			if memG {
-				return harness{c, 2, 6, 3}
+				return harness{c, 2, 7, 3}
 			}
-			return harness{c, 2, 6, 3}
+			return harness{c, 2, 7, 3}
 		}
-		return harness{c, 3, 7, 4}
+		return harness{c, 3, 8, 4}
 	}
 	if raw, ok := r.Replaying(); ok {
 		var c struct {
